@@ -146,6 +146,10 @@ def _pt(n):
             return TSeq(args[0])
         if head == 'SetV':
             return TSetV(args[0])
+        if head == 'MapV':
+            return Ty('mapv', (args[0], args[1]))
+        if head == 'ArrV':
+            return Ty('mapv', (INT, args[0]))
         if head in ('Opt', 'Optional'):
             a = args[0]
             if a.is_reflike:
@@ -215,6 +219,10 @@ def sort_of(t):
         return tuple_sort([sort_of(a) for a in t.args])
     if k == 'opaque':
         return opaque_sort(t.name)
+    if k == 'setv':
+        return z3.ArraySort(sort_of(t.args[0]), z3.BoolSort())
+    if k == 'mapv':
+        return z3.ArraySort(sort_of(t.args[0]), sort_of(t.args[1]))
     raise TypeError('type %r has no single SMT sort' % (t,))
 
 
